@@ -369,6 +369,7 @@ class Driver:
         self.status_mode = case.get("status_mode", "immediate")  # immediate | manual
         self.ncalls = {}
         self.at_paused_wait = False
+        self.cur_action = None
         self.req_params = {"pause": [], "abort": [], "stop": [], "halt": [], "suspend": []}
 
     # ---- canonicalisation
@@ -480,7 +481,9 @@ class Driver:
                 self.sched.append(["task", tok, where])
                 self.obs.append(["task", where])
                 self.last_run_where = where
-                self.fire_due()
+                if self.run_task_alive:
+                    # a request fired after the final step would race with the main thread's return
+                    self.fire_due()
             elif name.endswith("._cache_read_config") and how == "return":
                 self.sched.append(["cache_done"])
             elif name.endswith("_request_pause_coro"):
@@ -583,9 +586,9 @@ class Driver:
     def on_msg(self, m):
         with self.lock:
             if id(m) in self.msgs and self.msgs[id(m)][1] is m:
-                self.obs.append(["msg", self.msgs[id(m)][0]])
+                self.obs.append(["msg", self.msgs[id(m)][0], self.msg_list[self.msgs[id(m)][0]]])
             else:
-                self.obs.append(["emsg", self.canon_emsg(m)])
+                self.obs.append(["msg", None, self.canon_emsg(m)])
 
     def canon_emsg(self, m):
         c = self.canon_msg(m)
@@ -661,6 +664,29 @@ class Driver:
             RE._run_permit = ev
         fut = asyncio.run_coroutine_threadsafe(_acall(swap), loop)
         fut.result()
+        def wrap_cmd(name, orig):
+            async def wrapped(msg):
+                try:
+                    r = await orig(msg)
+                except asyncio.CancelledError:
+                    raise
+                except Exception as e:
+                    with self.lock:
+                        self.obs.append(["resp", ["exn", exn_name(e)]])
+                    raise
+                with self.lock:
+                    self.obs.append(["resp", self.canon_val(r)])
+                return r
+            return wrapped
+        for name, orig in list(RE._command_registry.items()):
+            RE._command_registry[name] = wrap_cmd(name, orig)
+        orig_rt = RE._resume_task
+
+        def resume_task(*a, **k):
+            if self.cur_action in ("abort", "stop", "halt"):
+                self.sched.append(["resume_task"])
+            return orig_rt(*a, **k)
+        RE._resume_task = resume_task
         orig_soc = RE._status_object_completed
 
         def soc(ret, fut, pardon):
@@ -677,6 +703,7 @@ class Driver:
 
         def do(action):
             nonlocal ncall
+            self.cur_action = action
             self.sched.append(["main", action])
             self.obs.append(["main", action])
             try:
@@ -707,6 +734,7 @@ class Driver:
             settle(loop)
             out.append(str(RE.state))
             out.append(bool(RE.deferred_pause_requested))
+            out.append(bool(RE.resumable))
             with self.lock:
                 self.sched.append(["main_done", action])
                 self.obs.append(["out", action] + out)
@@ -728,6 +756,9 @@ class Driver:
         except BaseException as e:  # harness failure
             self.errors.append("driver: %s: %s\n%s" % (type(e).__name__, e, traceback.format_exc()[-800:]))
         finally:
+            final_obs = list(self.obs)
+            final_sched = list(self.sched)
+            final_state = str(RE.state)
             try:
                 loop.call_soon_threadsafe(loop.stop)
                 RE._th.join(timeout=5)
@@ -735,8 +766,8 @@ class Driver:
             except Exception as e:
                 self.errors.append("teardown: %r" % (e,))
         return {
-            "sched": self.sched, "obs": self.obs, "tapes": self.tapes, "msgs": self.msg_list,
-            "devcalls": self.devcalls, "errors": self.errors, "final_state": str(RE.state),
+            "sched": final_sched, "obs": final_obs, "tapes": self.tapes, "msgs": self.msg_list,
+            "devcalls": self.devcalls, "errors": self.errors, "final_state": final_state,
             "wall": round(_time.time() - t0, 3),
         }
 
